@@ -4,6 +4,7 @@ import (
 	"encoding/hex"
 	"encoding/json"
 	"fmt"
+	"math/big"
 	"os"
 	"path/filepath"
 	"sort"
@@ -15,6 +16,7 @@ import (
 	"github.com/rigochain/rigo-go/ctrlers/stake"
 	rctypes "github.com/rigochain/rigo-go/ctrlers/types"
 	"github.com/rigochain/rigo-go/ledger"
+	"github.com/rigochain/rigo-go/libs/verifhook"
 	rtypes "github.com/rigochain/rigo-go/types"
 	"github.com/rigochain/rigo-go/types/crypto"
 	abcitypes "github.com/tendermint/tendermint/abci/types"
@@ -157,7 +159,15 @@ func (r *Replica) Exec(op *Op) J {
 			Call(func() { ref, refTx = r.reference(bz) })
 		}
 		var resp abcitypes.ResponseDeliverTx
+		var bridge []J
+		if r.Opts.EVM {
+			verifhook.OnEvmOp = func(op string, args ...interface{}) { bridge = append(bridge, r.bridgeEvent(op, args)) }
+		}
 		pm := Call(func() { resp = r.App.Core.DeliverTx(abcitypes.RequestDeliverTx{Tx: bz}) })
+		verifhook.OnEvmOp = nil
+		if len(bridge) > 0 {
+			ev["bridge"] = bridge
+		}
 		if ref != nil && pm == "" {
 			Call(func() { r.addReference(ev, ref, refTx, resp) })
 		}
@@ -647,4 +657,65 @@ func (r *Replica) addReference(ev J, ref *RefResult, tx *rctypes.Trx, resp abcit
 	if ref.OK {
 		ev["evmBurn"] = LimbsBig(ref.Burn)
 	}
+}
+
+// bridgeEvent renders one StateDBWrapper operation reported by the EvmOp hook.
+func (r *Replica) bridgeEvent(op string, args []interface{}) J {
+	ev := J{"op": op, "a": "none", "n": 0, "amt": []int{}, "tag": 0, "kind": ""}
+	name := func(x interface{}) string {
+		switch v := x.(type) {
+		case common.Address:
+			return r.KR.Name(v[:])
+		case rtypes.Address:
+			return r.KR.Name(v)
+		}
+		return "none"
+	}
+	amt := func(x interface{}) []int {
+		switch v := x.(type) {
+		case *big.Int:
+			return LimbsBig(v)
+		case *uint256.Int:
+			return Limbs(v)
+		}
+		return []int{}
+	}
+	num := func(x interface{}) int {
+		switch v := x.(type) {
+		case int:
+			return v
+		case uint64:
+			return small64(int64(v))
+		}
+		return 0
+	}
+	get := func(i int) interface{} {
+		if i < len(args) {
+			return args[i]
+		}
+		return nil
+	}
+	switch op {
+	case "ExecBegin":
+		ev["a"], ev["to"] = name(get(0)), name(get(1))
+	case "Prepare":
+		ev["a"], ev["to"], ev["n"] = name(get(0)), name(get(1)), num(get(2))
+	case "Snapshot", "RevertToSnapshot":
+		ev["n"] = num(get(0))
+	case "SyncIn":
+		ev["a"], ev["n"], ev["amt"], ev["tag"] = name(get(0)), num(get(1)), amt(get(2)), num(get(3))
+	case "WriteBack":
+		ev["a"], ev["n"], ev["amt"] = name(get(0)), num(get(1)), amt(get(2))
+	case "SubBalance", "AddBalance", "GetBalance":
+		ev["a"], ev["amt"] = name(get(0)), amt(get(1))
+	case "SetNonce", "GetNonce":
+		ev["a"], ev["n"] = name(get(0)), num(get(1))
+	case "ExecEnd":
+		if k, ok := get(0).(string); ok {
+			ev["kind"] = k
+		}
+	default: // CreateAccount, Suicide, SetState, SetCode, Exist, Empty, UnSync, AddLog, Finish
+		ev["a"] = name(get(0))
+	}
+	return ev
 }
